@@ -151,6 +151,7 @@ pub fn runtime_config(args: &Args, est_len_default: u64) -> Config {
         cfg.deviations = list.iter().filter_map(Deviation::from_json).collect();
         cfg.sched = Sched::Explicit;
     }
+    cfg.faults.stall_budget_ms = args.u64("stall-budget-ms", 0);
     cfg.trace_path = args.get("trace").map(|s| s.to_string());
     cfg.dev_path = args.get("devs-out").map(|s| s.to_string());
     cfg.step_cap = args.u64("step-cap", cfg.step_cap);
